@@ -10,7 +10,11 @@ single-pass Z80 source to `-E !2`):
 * multi-pass programs (6502: relative branches around the +127/-128 limits over code whose size depends on forward
   referenced zero-page symbols; 8048: conditional jumps around 256-byte page boundaries) in which jump errors
   1370/1910 are raised only in an intermediate pass, in every pass, or never, plus undefined symbols (error only in
-  pass 2), planted diagnostics and listing regions, with and without `-Y`, several files per run.
+  pass 2), planted diagnostics and listing regions, with and without `-Y`, several files per run;
+* the filters of `WrXErrorPos` in front of the counting: `EXPECT n,...` / `ENDEXPECT` blocks around branches whose jump
+  error is transient / permanent / absent (backward and forward, all four targets), around planted numbered diagnostics
+  (matching, non-matching, several, doubled numbers, 2130 itself), nested / lone / unclosed blocks, crossed with `-w`
+  (expected warnings), `-Y` and moving labels behind the block, `-Werror`, `-maxerrors`, listing regions.
 
 For every run: the observation (exit status, code files, messages per stream and - where `PASS n` markers share the
 stream - per pass, console summary, listing-file summary and messages) is judged by Spec/Report.lean (driver, `rs=`)
@@ -34,53 +38,68 @@ CPU = {
         org="\torg %d\n",
         macros="merr\tmacro\n\tbar\n\tendm\nmwarn\tmacro\n\trmb 0\n\tendm\n",
         Dw=["\tdfs 0", "\trmb 0", "\tmwarn"],
-        De=["\tfoo%d", "\tlda #300+%d", "\tbyt 300+%d", '\terror "boom%d"', "\tmerr", "\tlda 65536+%d"],
+        De=[("\tfoo%d", 1200), ("\tlda #300+%d", 1320), ("\tbyt 300+%d", 1320), ('\terror "boom%d"', None), ("\tmerr", 1110), ("\tlda 65536+%d", 1320)],
         nop="\tnop", res="\tdfs %d", load="\tlda s%d", br="\tbne s%d"),
     "6811": dict(          # the manual's own example of a transient branch error (beq over `ldd Var`)
         head="\tcpu 6811\n",
         org="\torg %d\n",
         macros="merr\tmacro\n\tbar\n\tendm\nmwarn\tmacro\n\trmb 0\n\tendm\n",
         Dw=["\trmb 0", "\tmwarn"],
-        De=["\tfoo%d", "\tldaa #300+%d", "\tfcb 300+%d", '\terror "boom%d"', "\tmerr"],
+        De=[("\tfoo%d", 1200), ("\tldaa #300+%d", 1320), ("\tfcb 300+%d", 1320), ('\terror "boom%d"', None), ("\tmerr", 1200)],
         nop="\tnop", res="\trmb %d", load="\tldd s%d", br="\tbeq s%d"),
     "z80": dict(
         head="\tcpu z80\n",
         org="\torg %d\n",
         macros="merr\tmacro\n\tbar\n\tendm\nmwarn\tmacro\n\tds 0\n\tendm\n",
         Dw=["\tds 0", "\tmwarn"],
-        De=["\tfoo%d", "\tdb 300+%d", "\tld a,300+%d", '\terror "boom%d"', "\tmerr"],
+        De=[("\tfoo%d", 1200), ("\tdb 300+%d", 1320), ("\tld a,300+%d", 1320), ('\terror "boom%d"', None), ("\tmerr", 1200)],
         nop="\tnop", res="\tds %d", load=None, br="\tjr s%d"),
     "8048": dict(
         head="\tcpu 8048\n",
         org="\torg %d\n",
         macros="merr\tmacro\n\tbar\n\tendm\nmwarn\tmacro\n\tds 0\n\tendm\n",
         Dw=["\tds 0", "\tmwarn"],
-        De=["\tfoo%d", "\tdb 300+%d", '\terror "boom%d"', "\tmerr", "\tjmp 1000h"],
+        De=[("\tfoo%d", 1200), ("\tdb 300+%d", 1320), ('\terror "boom%d"', None), ("\tmerr", 1200), ("\tjmp 1000h", 1320)],
         nop="\tnop", res="\tds %d", load=None, br="\tjz s%d"),
 }
 LISTING_WORD = {0: "off", 1: "on", 2: "noskipped", 3: "purecode"}
 
 
+WARN_NUM = 290            # doc/error-messages.md: "no memory reserved" - what every Dw line of the tables raises
+JMP_NUM = {"6502": 1370, "6811": 1370, "z80": 1370, "8048": 1910}
+
+
 def render(cpu, org, toks, rng, base=None):
-    """source text; with `base` some diagnostics are raised inside include files <base>_e.inc / <base>_w.inc
-    (written by observe), whose name then leads the message instead of the source's"""
+    """-> (source text, resolved tokens): `Dw` / `De` become `N<number>` of the line that was chosen (`De` stays for the
+    unnumbered ERROR pseudo-op), `N<number>` picks a line of that number; with `base` some diagnostics are raised
+    inside include files <base>_e.inc / <base>_w.inc (written by observe), whose name then leads the message"""
     c = CPU[cpu]
     out = [c["head"], c["macros"], c["org"] % org]
+    res = []
     k = 0
     for t in toks:
         k += 1
         h = t[0]
+        r = t
         if t in ("Dw", "De") and base and rng.random() < 0.12:
             out.append('\tinclude "%s_%s.inc"\n' % (base, t[1]))
-        elif t == "Dw":
+            r = "N%d" % (WARN_NUM if t == "Dw" else 1200)
+        elif t == "Dw" or t == "N%d" % WARN_NUM:
             out.append(rng.choice(c["Dw"]) + "\n")
+            r = "N%d" % WARN_NUM
         elif t == "Du":
             out.append('\twarning "hm%d"\n' % k)
-        elif t == "De":
-            x = rng.choice(c["De"])
+        elif t == "De" or h == "N":
+            pool = c["De"] if t == "De" else [e for e in c["De"] if e[1] == int(t[1:])]
+            x, num = rng.choice(pool)
             out.append((x % (k % 50) if "%d" in x else x) + "\n")
+            r = "De" if num is None else "N%d" % num
         elif t == "Df":
             out.append('\tfatal "stop"\n')
+        elif h == "X":
+            out.append("\texpect %s\n" % ",".join(t[1:].split("+")))
+        elif t == "Y":
+            out.append("\tendexpect\n")
         elif h == "S":
             out.append("\tlisting %s\n" % LISTING_WORD[int(t[1:])])
         elif t == "V":
@@ -104,7 +123,8 @@ def render(cpu, org, toks, rng, base=None):
             out.append(c["br"] % int(t[1:]) + "\n")
         else:
             raise ValueError(t)
-    return "".join(out)
+        res.append(r)
+    return "".join(out), res
 
 
 # ----------------------------------------------------------------------------------------------
@@ -214,9 +234,104 @@ def gen_random(rng, cpu):
     return items
 
 
-def gen_program(rng, profile):
+def expect_list(rng, cpu, inside):
+    """numbers for one EXPECT: drawn from what the block raises / may raise and from numbers it does not raise"""
+    pool = []
+    for t in inside:
+        if t[0] in "RPJ":
+            pool += [JMP_NUM[cpu]] * 3
+        elif t[0] == "N":
+            pool += [int(t[1:])] * 2
+        elif t == "Dw":
+            pool += [WARN_NUM] * 2
+        elif t == "De":
+            pool += [1200, 1320]
+        elif t[0] == "A":
+            pool.append(1010)
+    pool += [1370, 1910, 1200, 1320, WARN_NUM, 1010, 2130, 80, 170]       # never 1450 (Model/ErrChan.lean: `.restore`)
+    k = rng.choice([1, 1, 1, 2, 2, 3])
+    return [rng.choice(pool) for _ in range(k)]
+
+
+def wrap_expect(rng, toks, cpu, unclosed_ok):
+    """EXPECT / ENDEXPECT blocks around random stretches of the program - preferably stretches that hold a branch or a
+    planted diagnostic -, sometimes nested, lone or left open"""
+    toks = list(toks)
+    for _ in range(rng.choice([1, 1, 2, 3])):
+        hot = [i for i, t in enumerate(toks) if t[0] in "RPJ" or t in ("Dw", "De") or t[0] == "N"]
+        if hot and rng.random() < 0.85:
+            a = rng.choice(hot)
+            a = max(0, a - rng.choice([0, 0, 0, 1, 2]))
+        else:
+            a = rng.randrange(len(toks) + 1)
+        b = min(len(toks), a + rng.choice([1, 1, 1, 2, 3, 6]))
+        if any(t[0] == "X" or t == "Y" for t in toks[a:b]):
+            if rng.random() < 0.8:
+                continue                                  # else: nested EXPECT (error 2140) / early ENDEXPECT
+        nums = expect_list(rng, cpu, toks[a:b])
+        r = rng.random()
+        if r < 0.88:
+            toks.insert(b, "Y")
+            toks.insert(a, "X" + "+".join(map(str, nums)))
+        elif r < 0.93:
+            toks.insert(a, "Y")                           # ENDEXPECT without EXPECT (error 2160)
+        elif unclosed_ok:
+            toks.insert(a, "X" + "+".join(map(str, nums)))  # never closed (error 2150 at the end of the pass)
+    return toks
+
+
+def gen_expect_jump(rng):
+    """the filter x -Y x moving-label class: a branch whose jump error is (or is not) announced by EXPECT, in front of
+    code that moves between the passes.  -> (cpu, org, toks)"""
+    cpu = rng.choice(["6502", "6502", "6811", "6811", "8048", "z80"])
+    jn = JMP_NUM[cpu]
+    exp = lambda: "X" + "+".join(str(x) for x in rng.choice([[jn], [jn], [jn], [jn, jn], [jn, WARN_NUM], [3280 - jn], [1320], [jn, 1200]]))
+    if cpu in ("6502", "6811"):
+        org = 0x1000 if cpu == "6502" else 0x8000
+        mover = ["A2"] * rng.randrange(1, 4) + ["L3", "F1"]
+        zp = "Q2=%d" % rng.choice([16, 16, 32, 255, 400])
+        far = lambda: rng.choice([100, 125, 126, 127, 128, 129, 160, 160, 210, 210])
+        shape = rng.random()
+        if shape < 0.55:          # backward branch (error in every pass when too far), label moves behind it
+            br = ["R1"] if rng.random() < 0.8 else ["R1", "R1"]
+            toks = ["L1", "F%d" % far(), exp()] + br + ["Y"] + mover + [zp]
+        elif shape < 0.7:         # forward branch over shrinking code (error only in pass 2: the expectation fails in pass 1)
+            n = rng.choice([41, 42, 43, 44, 50, 62, 63, 64, 65])
+            toks = ["F2", exp(), "R1", "Y"] + ["A2"] * n + ["L1", "F1"] + (mover if rng.random() < 0.5 else []) + [zp]
+        elif shape < 0.85:        # two blocks, the second one behind the first moving label
+            toks = ["L1", "F%d" % far(), exp(), "R1", "Y"] + mover + ["F%d" % rng.choice([1, 130]), exp(), "R3", "Y", "A2", "L4", zp]
+        else:                     # the moving label inside the block, behind the branch
+            toks = ["L1", "F%d" % far(), exp(), "R1"] + mover + ["Y", "F1", zp]
+        if rng.random() < 0.2:    # expectation outside the block that raises the error
+            i = toks.index("Y")
+            br = toks.pop(i - 1)                      # ENDEXPECT now sits at i - 1
+            toks.insert(i, br)
+    elif cpu == "8048":           # a failing page jump lays down no code: everything behind it moves
+        org = rng.choice([200, 240, 250, 253, 254])
+        if rng.random() < 0.5:    # forward: no error in pass 1, the expectation fails there
+            toks = [exp(), "P1", "Y", "F%d" % rng.choice([1, 2, 3, 5]), "L2", "F%d" % rng.choice([1, 10, 20, 28]), "L1", "F1"]
+            if rng.random() < 0.5:
+                toks += [exp(), "P2", "Y", "L3"]
+        else:                     # backward across the page boundary: swallowed in every pass; a second, forward jump behind it
+            toks = ["L1", "F%d" % rng.choice([1, 3, 10, 60]), exp(), "P1", "Y", "F%d" % rng.choice([1, 2, 5]), "P2", "F%d" % rng.choice([1, 20, 250]), "L2", "F1"]
+    else:                         # Z80: nothing moves, but the error comes back in every pass
+        org = 0x1000
+        toks = ["L1", "F%d" % rng.choice([100, 126, 127, 200]), exp(), "J1", "Y", "F1"]
+    return cpu, org, toks
+
+
+def gen_program(rng, profile, unclosed_ok=False):
     """returns (cpu, org, tokens, family)"""
-    cpu, org, toks, fam = gen_program0(rng, profile)
+    if profile == "multi" and rng.random() < 0.2:
+        cpu, org, toks = gen_expect_jump(rng)
+        fam = "expect-jump"
+        if rng.random() < 0.3:
+            toks = sprinkle(rng, toks, rng.choice([1, 1, 2]), rng.choice([0, 0, 1]), saves=False)
+    else:
+        cpu, org, toks, fam = gen_program0(rng, profile)
+        if rng.random() < (0.3 if profile == "flat" else 0.25):
+            toks = wrap_expect(rng, toks, cpu, unclosed_ok)
+            fam += "+expect"
     if cpu == "z80":            # Z80 JR checks the distance even for a questionable target: its own branch kind
         toks = ["J" + t[1:] if t[0] == "R" else t for t in toks]
     return cpu, org, toks, fam
@@ -291,11 +406,15 @@ def gen_options(rng, nfiles):
 # ----------------------------------------------------------------------------------------------
 # observation of a real run
 
-def msg_regex(name, gnu):
+def msg_regex(name, gnu, internal=False):
+    """`internal`: also messages that carry no source position (`INTERNAL`, raised at the end of a pass) - they can only
+    be attributed in a run with one source"""
     n = re.escape(name[:-4].encode()) + rb"(?:\.asm|_[ew]\.inc)"
     if gnu:
-        return re.compile(rb"^" + n + rb":\d+(?::\d+)?(: warning)?( #\d+)?: ([^\n]*)$", re.M)
-    return re.compile(rb"^> > > " + n + rb"\(\d+\)[^\n]*?: (error|warning)( #\d+)?: ([^\n]*)$", re.M)
+        pos = rb"(?:" + n + rb":\d+(?::\d+)?|INTERNAL)" if internal else n + rb":\d+(?::\d+)?"
+        return re.compile(rb"^" + pos + rb"(: warning)?( #\d+)?: ([^\n]*)$", re.M)
+    pos = rb"(?:" + n + rb"\(\d+\)[^\n]*?|INTERNAL)" if internal else n + rb"\(\d+\)[^\n]*?"
+    return re.compile(rb"^> > > " + pos + rb": (error|warning)( #\d+)?: ([^\n]*)$", re.M)
 
 
 def classify(mm, gnu, numeric):
@@ -303,13 +422,14 @@ def classify(mm, gnu, numeric):
     warn = mm.group(1) is not None if gnu else mm.group(1) == b"warning"
     text = mm.group(3)
     num = re.match(rb" #(\d+)", mm.group(2)) if mm.group(2) else None
-    jump = any(t.encode() in text for t in JMP_TEXT) or (num is not None and num.group(1).decode() in JMP_NUMS)
+    # the message itself, not a quotation of it (2130 "expected error did not occur" names the expected message)
+    jump = any(text.startswith(t.encode()) for t in JMP_TEXT) or (num is not None and num.group(1).decode() in JMP_NUMS)
     return warn, jump
 
 
 def count_msgs(data, name, o):
     e = w = j = 0
-    for mm in msg_regex(name, o["gnu"]).finditer(data):
+    for mm in msg_regex(name, o["gnu"], o.get("internal", False)).finditer(data):
         warn, jump = classify(mm, o["gnu"], o["numeric"])
         if warn:
             w += 1
@@ -479,7 +599,7 @@ def parse_model(ans):
                  lst=tuple(int(x) for x in lm.split(".")), fatal=fat == "1", dbl=dbl == "1", passes=[])
         for q in ps.split("/"):
             v = [int(x) for x in q.split(".")]
-            d["passes"].append(dict(con=(v[0], v[1]), chan=(v[2], v[3]), jmp=v[4], forgotten=v[5]))
+            d["passes"].append(dict(con=(v[0], v[1]), chan=(v[2], v[3]), jmp=v[4], forgotten=v[5], filtered=v[6]))
         fs.append(d)
     return st, fs, kv.get("ms"), kv.get("rs")
 
@@ -551,6 +671,13 @@ FIXED = [
     ("repass-warnings-r-werror", dict(werror=True, msgpass=1), [("6502", 4096, ["F1", "A2", "L1", "F1", "Q2=32"])]),
     ("repass-warnings-r2", dict(msgpass=2), [("6502", 4096, ["F1", "A2", "L1", "F1", "Q2=32"])]),
     ("two-files-jump-error-then-moving-label-Y", dict(y=True), [("6502", 4096, ["L3", "F160", "R3"]), ("6502", 4096, ["A2", "A2", "L1", "F1", "Q2=32"])]),
+    # EXPECT in front of the counting: an announced jump error is no "questionable" error that -Y could forget later
+    ("expected-backward-branch-error-then-moving-label-Y", dict(y=True), [("6811", 32768, ["L1", "F210", "X1370", "R1", "Y", "A2", "L3", "F1", "Q2=16"])]),
+    ("expected-backward-branch-error-then-moving-label", dict(), [("6811", 32768, ["L1", "F210", "X1370", "R1", "Y", "A2", "L3", "F1", "Q2=16"])]),
+    ("expected-transient-branch-error-Y", dict(y=True), [("6502", 4096, ["F2", "X1370", "R1", "Y"] + ["A2"] * 50 + ["L1", "F1", "Q2=32"])]),
+    ("expected-page-error-Y", dict(y=True), [("8048", 240, ["X1910", "P1", "Y", "F1", "L2", "F21", "L1", "F1"])]),
+    ("expected-error-did-not-occur", dict(), [("z80", 4096, ["L1", "F100", "X1370+290", "J1", "N290", "Y", "F1"])]),
+    ("expected-warning-under-w", dict(suppw=True), [("6502", 4096, ["F1", "X290", "N290", "Y", "N290", "F1"])]),
     ("two-files-jump-error-then-moving-label", dict(), [("6502", 4096, ["L3", "F160", "R3"]), ("6502", 4096, ["A2", "A2", "L1", "F1", "Q2=32"])]),
 ]
 
@@ -563,8 +690,8 @@ def probe_carry(bdir, wd):
     """self-calibration of the model flag `carryJmp` (never consulted by the SPEC): does a counted jump error of one
     source still sit in JmpErrors when the next source of the run is assembled?  Witness of the known finding."""
     rng0 = common.rng_for(0, "C02X-probe")
-    a = render("6502", 4096, ["L3", "F160", "R3"], rng0)
-    b = render("6502", 4096, ["A2", "A2", "L1", "F1", "Q2=32"], rng0)
+    a = render("6502", 4096, ["L3", "F160", "R3"], rng0)[0]
+    b = render("6502", 4096, ["A2", "A2", "L1", "F1", "Q2=32"], rng0)[0]
     open(os.path.join(wd, "pa.asm"), "w").write(a)
     open(os.path.join(wd, "pb.asm"), "w").write(b)
     rc, so, se = common.run_tool(bdir, "asl", ["-Y", "pa.asm", "pb.asm"], wd, timeout=60, env={"ASL_VERIF_MAX_PASSES": str(PASS_CAP)})
@@ -596,20 +723,31 @@ def run_part(args, bdir, wd):
                 o["opts"].append("-L")
             if o["werror"]:
                 o["opts"].append("-Werror")
+            if o["suppw"]:
+                o["opts"].append("-w")
             if o["y"]:
                 o["opts"].append("-Y")
             if o["msgpass"]:
                 o["opts"] += ["-r", str(o["msgpass"])]
-            files = [(cpu, org, toks, "fixed", render(cpu, org, toks, rng)) for cpu, org, toks in fl]   # no includes: base=None
+            files = []
+            for cpu, org, toks in fl:                                                          # no includes: base=None
+                text, rtoks = render(cpu, org, toks, rng)
+                files.append((cpu, org, rtoks, "fixed", text))
+            o["internal"] = len(files) == 1
             cases.append(("fixed:%s:%s" % (name, chan), o, files))
     for i in range(n_flat + n_multi):
         profile = "flat" if i < n_flat else "multi"
         nf = rng.choice([1, 1, 1, 2, 3])
         files = []
         for j in range(nf):
-            cpu, org, toks, fam = gen_program(rng, profile)
-            files.append((cpu, org, toks, fam, render(cpu, org, toks, rng, "x%d_%d" % (len(cases), j))))
+            cpu, org, toks, fam = gen_program(rng, profile, unclosed_ok=nf == 1)
+            text, rtoks = render(cpu, org, toks, rng, "x%d_%d" % (len(cases), j))
+            files.append((cpu, org, rtoks, fam, text))
         o = gen_options(rng, nf)
+        o["internal"] = nf == 1
+        if not o["y"] and any(f[3] == "expect-jump" for f in files) and rng.random() < 0.5:
+            o["y"] = True                                  # the filters matter to -Y: more of it where jump errors are announced
+            o["opts"].append("-Y")
         if profile == "flat" and o["lm"] == 0 and rng.random() < 0.7:
             o["lm"] = 1
             o["opts"].append("-l")
@@ -658,7 +796,7 @@ def run_part(args, bdir, wd):
             continue
         npass = max([len(mf["passes"]) for mf in mfiles] or [1])
         dist["passes:%d" % npass] += 1
-        in_off = sum(1 for f in files if "S0" in f[2] and any(t[0] == "D" for t in f[2]))
+        in_off = sum(1 for f in files if "S0" in f[2] and any(t[0] in "DN" for t in f[2]))
         dist["files-with-diagnostics-and-LISTING-OFF"] += in_off
         dist["files-with-diagnostics-in-include-files"] += sum(1 for f in files if ".inc" in f[4])
         j_early = sum(p["jmp"] for mf in mfiles for p in mf["passes"][:-1])
@@ -666,7 +804,14 @@ def run_part(args, bdir, wd):
         dist["runs-with-jump-error-in-intermediate-pass"] += j_early > 0
         dist["runs-with-jump-error-in-last-pass"] += j_last > 0
         dist["runs-with-forgotten-errors(-Y)"] += any(p["forgotten"] for mf in mfiles for p in mf["passes"])
-        if any(t[0] in "DSRPA" for f in files for t in f[2]):
+        n_filt = sum(p["filtered"] for mf in mfiles for p in mf["passes"])
+        has_x = any(t[0] == "X" for f in files for t in f[2])
+        dist["runs-with-EXPECT-blocks"] += has_x
+        dist["runs-with-filtered-messages(EXPECT/-w)"] += n_filt > 0
+        dist["runs-with-EXPECT-filtered-messages-in-several-passes"] += has_x and sum(1 for mf in mfiles for p in mf["passes"] if p["filtered"]) > 1
+        dist["runs-with-EXPECT-filtered-messages-and-Y-and-several-passes"] += bool(has_x and n_filt and o["y"] and npass > 1)
+        dist["runs-with-EXPECT-and-jump-message-emitted-anyway"] += bool(has_x and (j_early or j_last))
+        if any(t[0] in "DSRPANXY" for f in files for t in f[2]):
             distinct.add((tuple(obs["args"][:-len(files)]), rq.split(" ")[9]))
         if len(samples) < 6 and (j_early > 0 or (in_off and o["lm"] == 1)) and tag.split("-")[0] in ("flat", "multi"):
             samples.append(dict(tag=tag, options=obs["args"], model=ans, observation=obs_field(obs), spec=rs))
